@@ -34,6 +34,9 @@ func runC10(c *Ctx) {
 	ruleHandlerErrorKeepsConn(c, "R10.g")
 	ruleArgumentIndexSafety(c, "R10.h")
 	ruleIntegersNotThroughFloats(c, scope)
+	// "a null where a value is required is rejected": a null argument stays null until it is tested
+	rulePayloadStores(c, "R10.j")
+	ruleIsNilMeansNull(c, "R10.j")
 	c.assume("surplus trailing arguments are ignored by most executors (the property speaks of lacking/ill-formed arguments)")
 }
 
